@@ -19,6 +19,12 @@
 //             own whose descriptor is not ready in that pass; no except mask) run on epoll and on select in the
 //             same process; the per-pass multisets of (event, reported mask & subscription) must be equal.
 //   directed  hand-written minimal histories (x both back-ends), see directed_case().
+// In the safety and equiv legs one scenario in five is "wide": 8-40 channels, most descriptors idle and without
+// any event, the number of registered descriptors (= records in the loop's descriptor map) started just below
+// 13 / 29, and callbacks that mostly create+enable events on descriptors the loop has no record for yet, so that
+// the map grows (and re-hashes) while a pass is being served. An event called a second time in one pass whose
+// descriptor is no longer ready (it was drained by the first call) is a violation; duplicated or late callbacks
+// in one back-end only are caught by the equiv leg.
 #include "common/vh.hpp"
 
 #include <tbox/event/loop.h>
@@ -70,6 +76,7 @@ struct Desc {
     int snap_raw = 0;        //!< raw poll revents
     bool served = false;     //!< some event on it had a callback in this pass
     int nev = 0;             //!< alive events on it (== reference count of the shared record)
+    int nev_snap = 0;        //!< nev when the pass started (order-independent criterion for the equiv leg)
 };
 
 struct Chan { bool sock = false; int d[2] = {-1, -1}; };   //!< pipe: d[0] read end, d[1] write end
@@ -85,6 +92,7 @@ struct Ev {
     bool pending_delete = false;
     bool in_cb = false;
     int ncb = 0;
+    int last_cb_pass = -1;   //!< pass of the latest callback
     int nchildren = 0;
     uint64_t owner = 0;      //!< equiv mode: the only event whose callbacks may act on this one
 };
@@ -92,6 +100,7 @@ struct Ev {
 struct Options {
     bool equiv = false;
     int cls = 3;             //!< safety scenario class, see top of file
+    bool wide = false;       //!< many descriptors, registrations inside callbacks
 };
 
 typedef std::vector<std::pair<uint64_t, int> > PassLog;
@@ -111,6 +120,9 @@ struct World {
     bool in_pass = false;
     bool abandon = false;
     bool record_freed_this_pass = false;
+    int nrecords = 0;        //!< descriptors with at least one event (records in the loop's map, without its own wake-up fd)
+    int max_records = 0;     //!< largest number of records the loop's map ever held (with the wake-up fd during a pass)
+    int served_fds = 0;      //!< descriptors served so far in this pass
     std::vector<PassLog> cb_log;
     vh::Sig sig;
     bool saw_multi_ready = false, saw_cross_mutation = false;
@@ -201,13 +213,22 @@ struct World {
 
     void snapshot() {
         int ready_fds = 0, ready_with_enabled = 0;
+        std::vector<struct pollfd> pf;
+        std::vector<int> pidx(descs.size(), -1);
         for (size_t i = 0; i < descs.size(); ++i) {
             Desc &d = descs[i];
-            d.snap = 0; d.snap_raw = 0; d.served = false;
+            d.snap = 0; d.snap_raw = 0; d.served = false; d.nev_snap = d.nev;
             if (!d.open) continue;
             struct pollfd p; p.fd = d.fd; p.events = POLLIN | POLLOUT | POLLPRI | POLLRDHUP; p.revents = 0;
-            int rc = poll(&p, 1, 0);
-            if (rc < 0) continue;
+            pidx[i] = (int)pf.size();
+            pf.push_back(p);
+        }
+        served_fds = 0;
+        int prc = pf.empty() ? 0 : poll(pf.data(), pf.size(), 0);
+        for (size_t i = 0; i < descs.size(); ++i) {
+            Desc &d = descs[i];
+            if (pidx[i] < 0 || prc < 0) continue;
+            struct pollfd p = pf[pidx[i]];
             d.snap_raw = p.revents;
             // lenient: everything any back-end could legitimately report for this state
             if (p.revents & (POLLIN | POLLHUP | POLLERR | POLLRDHUP)) d.snap |= kR;
@@ -244,6 +265,22 @@ struct World {
         if (d.nev == 0) {
             vh::counter("record_allocated");
             if (in_pass && record_freed_this_pass) vh::counter("create_takes_record_released_in_same_pass");
+            ++nrecords;
+            int in_map = nrecords + (in_pass ? 1 : 0);     // the loop's wake-up descriptor has a record during a pass
+            vh::counter_max("max_registered_descriptors", in_map);
+            if (in_pass) {
+                vh::counter("new_descriptor_registered_in_callback");
+                if (in_map >= 14) vh::counter("new_descriptor_registered_in_callback_with_ge_13_records");
+                if (in_map > max_records && (in_map == 14 || in_map == 30 || in_map == 60)) {
+                    // first time the map holds that many: libstdc++ re-hashes here
+                    vh::counter(vh::fmt("registration_in_callback_grows_map_to_%d_records", in_map));
+                    int unserved = 0;
+                    for (auto &x : descs) if (x.snap && x.nev_snap && !x.served) ++unserved;
+                    if (served_fds >= 1 && unserved >= 1) vh::counter("map_growth_in_callback_between_served_and_unserved_fds");
+                    log(vh::fmt(" (map grows to %d records)", in_map));
+                }
+            }
+            if (in_map > max_records) max_records = in_map;
         } else vh::counter("create_shares_existing_record");
         bool ok = e->p->initialize(d.fd, (short)mask, oneshot ? Event::Mode::kOneshot : Event::Mode::kPersist);
         VH_CHECK(ok, k("api/initialize-returned-false"), "initialize(fd=%d,%s) on a fresh event returned false", d.fd, mask_str(mask).c_str());
@@ -276,6 +313,7 @@ struct World {
         Desc &d = descs[e.desc];
         --d.nev;
         if (d.nev == 0) {
+            --nrecords;
             vh::counter("record_released");
             if (in_pass) {
                 record_freed_this_pass = true;
@@ -357,12 +395,32 @@ struct World {
                      vh::fmt("pass %d: %s called with %s but its descriptor d%d was ready for %s only (poll revents 0x%x)",
                              pass, evname(e).c_str(), mask_str(events).c_str(), e.desc, mask_str(d.snap).c_str(), d.snap_raw));
         }
+        if (e.last_cb_pass == pass) {
+            // The back-end waits once per pass and that readiness was already delivered to this event: a second call
+            // needs the descriptor to be ready still.
+            vh::counter("cb_second_call_in_same_pass");
+            int now = 0;
+            if (d.open) {
+                struct pollfd p; p.fd = d.fd; p.events = POLLIN | POLLOUT | POLLPRI | POLLRDHUP; p.revents = 0;
+                if (poll(&p, 1, 0) >= 0) {
+                    if (p.revents & (POLLIN | POLLHUP | POLLERR | POLLRDHUP)) now |= kR;
+                    if (p.revents & (POLLOUT | POLLERR | POLLHUP)) now |= kW;
+                    if (p.revents & (POLLPRI | POLLERR | POLLHUP)) now |= kX;
+                }
+            }
+            if (!(now & e.mask))
+                vh::viol(k("callback/again-in-same-pass-descriptor-no-longer-ready"),
+                         vh::fmt("pass %d: %s called a second time in this pass with %s; its descriptor d%d is now ready for %s only (it was %s when the pass started)",
+                                 pass, evname(e).c_str(), mask_str(events).c_str(), e.desc, mask_str(now).c_str(), mask_str(d.snap).c_str()));
+        }
+        e.last_cb_pass = pass;
         int hot = 0;
         for (auto &kv : evs) if (kv.second->desc == e.desc && kv.second->enabled) ++hot;
         if (hot + (e.oneshot ? 1 : 0) >= 2) vh::counter("cb_on_shared_fd");
         if (d.snap_raw & POLLHUP) vh::counter("cb_on_hup_fd");
         if (events & kX) vh::counter("cb_reports_except");
         if ((size_t)pass < cb_log.size()) cb_log[pass].push_back(std::make_pair(id, events & e.mask & (kR | kW)));
+        if (!d.served) ++served_fds;
         d.served = true;
         ++e.ncb;
         e.in_cb = true;
@@ -447,6 +505,8 @@ struct World {
                 case 1: ok = d.snap != 0; break;
                 case 2: ok = d.snap_raw == 0; break;
                 case 3: ok = d.nev == 0 && d.snap_raw == 0; break;
+                case 5: ok = d.nev == 0; break;
+                case 6: ok = d.nev_snap == 0 && d.snap_raw == 0; break;
                 default: ok = true;
             }
             if (ok) v.push_back((int)i);
@@ -459,7 +519,7 @@ struct World {
 
     void act_create(Ev &self, vh::Rng &r, int want) {
         // equiv mode: the bound must not depend on what other callbacks of the same pass did
-        if (opt.equiv ? self.nchildren >= 2 : evs.size() >= 28) return;
+        if (opt.equiv ? self.nchildren >= (opt.wide ? 4 : 2) : evs.size() >= (opt.wide ? 90u : 28u)) return;
         int di = pick_desc(&self, r, want);
         if (di < 0) return;
         if (!opt.equiv) {
@@ -484,6 +544,16 @@ struct World {
     }
 
     void one_action(Ev &self, vh::Rng &r) {
+        if (opt.wide) {
+            // register descriptors the loop has no record for yet; consume so that a repeated call finds nothing to read
+            unsigned w = (unsigned)r.below(10);
+            if (w < 4) { act_create(self, r, r.chance(3, 4) ? 5 : 3); return; }
+            if (w < 6) {
+                Desc &od = descs[self.desc];
+                if ((self.mask & kR) && od.open) { log(" consume"); sig.add(2); drain_fd(od.fd); vh::counter("act_consume"); }
+                return;
+            }
+        }
         unsigned roll = (unsigned)r.below(100);
         Desc &sd = descs[self.desc];
         if (roll < 9) {                                   // disable self
@@ -600,6 +670,11 @@ struct World {
         int n = r.pick(ncount);
         Desc &sd = descs[self.desc];
         for (int i = 0; i < n; ++i) {
+            if (opt.wide) {
+                unsigned w = (unsigned)r.below(10);
+                if (w < 4) { act_create(self, r, 6); continue; }
+                if (w < 6) { if ((self.mask & kR) && sd.open) { log(" consume"); sig.add(2); drain_fd(sd.fd); vh::counter("act_consume"); } continue; }
+            }
             unsigned roll = (unsigned)r.below(100);
             if (roll < 12) { log(" dis-self"); sig.add(1); if (self.enabled) vh::counter("act_disable_self_while_enabled"); do_disable(self); }
             else if (roll < 22) { if ((self.mask & kR) && sd.open) { log(" consume"); sig.add(2); drain_fd(sd.fd); vh::counter("act_consume"); } }
@@ -631,7 +706,36 @@ struct World {
     }
 
     // ---------------------------------------------------------------- scenario
+    //! many descriptors, most of them idle and without a record; the number of records starts just below a growth
+    //! threshold of the loop's descriptor map (14th / 30th record, the loop's own wake-up descriptor included)
+    void setup_wide() {
+        int target = rs.chance(1, 2) ? (int)rs.range(8, 12) : (int)rs.range(23, 28);
+        if (rs.chance(1, 6)) target = (int)rs.range(4, 34);
+        int nch = target <= 12 ? (int)rs.range(8, 16) : (int)rs.range(18, 32);
+        for (int i = 0; i < nch; ++i) {
+            if (rs.chance(7, 10)) add_pipe(); else add_sock();
+        }
+        if (opt.equiv) {
+            for (size_t c = 0; c < chans.size(); ++c)
+                if (rs.chance(1, 5)) descs[chans[c].d[rs.below(2)]].watchable = false;
+        }
+        std::vector<int> order;
+        for (size_t i = 0; i < descs.size(); ++i) if (descs[i].watchable) order.push_back((int)i);
+        for (size_t i = order.size(); i > 1; --i) std::swap(order[i - 1], order[rs.below(i)]);
+        for (int j = 0; j < target && j < (int)order.size(); ++j) {
+            int di = order[j];
+            int n = rs.chance(1, 5) ? 2 : 1;
+            for (int q = 0; q < n; ++q) {
+                uint64_t owner = 0;
+                if (!evs.empty() && rs.chance(3, 4)) { auto it = evs.begin(); std::advance(it, rs.below(evs.size())); owner = it->first; }
+                create(next_struct_id++, di, pick_mask(di, rs, !opt.equiv), rs.chance(1, 5), rs.chance(5, 6), owner);
+            }
+        }
+        vh::counter("wide_scenarios");
+    }
+
     void setup_random() {
+        if (opt.wide) { setup_wide(); return; }
         int nch = (int)rs.range(2, 5);
         for (int i = 0; i < nch; ++i) {
             if (rs.chance(3, 5)) add_pipe(); else add_sock();
@@ -682,6 +786,7 @@ struct World {
 
     void shape_readiness() {
         for (size_t i = 0; i < dirs.size(); ++i) {
+            if (opt.wide && !rs.chance(1, 4)) continue;      // most descriptors stay idle
             unsigned roll = (unsigned)rs.below(20);
             int level = roll < 6 ? 0 : roll < 10 ? 1 : roll < 17 ? 2 : 3;
             if (level) { set_level(dirs[i], level); sig.add(0x80 + level); }
@@ -702,6 +807,7 @@ struct World {
         int probe = dup(0);
         if (probe >= 0) ::close(probe);
         record_freed_this_pass = false;
+        if (nrecords + 1 > max_records) max_records = nrecords + 1;    // the wake-up descriptor is registered at the start of the pass
         loop->runNext([] {}, "c03-nowait");
         in_pass = true;
         bool ok = true;
@@ -754,7 +860,7 @@ struct World {
 
     void run_random() {
         start();
-        log(std::string("[") + be + (opt.equiv ? " equiv" : vh::fmt(" class%d", opt.cls)) + "]");
+        log(std::string("[") + be + (opt.equiv ? " equiv" : vh::fmt(" class%d", opt.cls)) + (opt.wide ? " wide" : "") + "]");
         setup_random();
         int npass = (int)rs.range(3, 7);
         for (int p = 0; p < npass; ++p) {
@@ -776,6 +882,7 @@ void safety_case(uint64_t idx, vh::Rng &) {
     uint64_t scen = idx / 2;
     const char *be = (idx & 1) ? "select" : "epoll";
     Options o; o.equiv = false; o.cls = (int)(scen % 4);
+    if (scen % 5 == 0) { o.wide = true; o.cls = 2 + (int)((scen / 5) & 1); }
     World w(be, vh::mix(vh::st().args.seed, scen), o);
     w.run_random();
     vh::counter(std::string("cases_") + be);
@@ -788,6 +895,7 @@ void safety_case(uint64_t idx, vh::Rng &) {
 
 void equiv_case(uint64_t idx, vh::Rng &) {
     Options o; o.equiv = true; o.cls = 3;
+    o.wide = idx % 5 == 0;
     uint64_t s = vh::mix(vh::st().args.seed ^ 0xe9, idx);
     World a("epoll", s, o);
     a.run_random();
